@@ -39,7 +39,7 @@ RULE = ("one run = one world of well-formed keys (oct, RSA, EC, Ed25519, X25519 
         "(entry point, exception type, innermost joserfc frame)")
 ASSUMPTIONS = [
     "out of scope by the statement (never generated): JSON-serialisation dicts missing the members joserfc itself emits (payload / signature / signatures; protected / iv / ciphertext / tag) or carrying non-str / non-dict / non-list there",
-    "hostile p2c values are clamped to <= 100000 (a larger count is a denial-of-service matter, not an exception-type matter)",
+    "hostile p2c values between 100001 and 2^31-1 are never generated (they would really be iterated: a denial-of-service matter, not an exception-type matter); values >= 2^31, which fail at once, are",
     "keys and registries are well-formed; the *combination* of an attacker-chosen alg with a well-formed key of another kind is in scope",
 ]
 COMPONENTS = {
@@ -53,7 +53,9 @@ VALUES = [None, True, False, 0, -1, 7, 2 ** 70, -2 ** 70, 1.5, "", "x", "HS256",
           [{}], [None], {}, {"a": 1}, {"kty": "EC"}, "none", "dir", 10 ** 400, ["b64"], {"b64": False}, "AAAA"]
 MEMBERS = ["alg", "enc", "zip", "kid", "crit", "b64", "epk", "apu", "apv", "p2s", "p2c", "iv", "tag", "jwk", "jku", "x5c", "x5t",
            "typ", "cty", "skid", "zzz"]
-P2C_VALUES = [None, True, 0, -1, -2 ** 70, 1, 3, 100000, 1.5, "3", [], {}, [3]]
+# counts between 100001 and 2^31-1 would really be iterated (a denial-of-service matter): never generated.
+# counts >= 2^31 cannot be represented by the KDF binding and fail at once - with which exception type is C16's business
+P2C_VALUES = [None, True, 0, -1, -2 ** 70, 1, 3, 100000, 1.5, "3", [], {}, [3], 2 ** 31, 2 ** 32, 2 ** 63 - 1, 2 ** 63, 2 ** 64, 10 ** 30]
 WEIRD_JWKS = [
     {"kty": "EC", "crv": "P-999", "x": "AA", "y": "AA"}, {"kty": "EC", "crv": "P-256", "x": "AA"}, {"kty": "EC", "crv": "P-256", "x": 1, "y": 2},
     {"kty": "EC", "crv": ["P-256"], "x": "AA", "y": "AA"}, {"kty": "OKP", "crv": "P-256", "x": "AA"}, {"kty": "OKP", "crv": "X25519"},
@@ -152,7 +154,9 @@ def judge(entry, value, keyarg, reg, sender=None, detached=None):
         call(entry, value, keyarg, reg, sender, detached)
     except (JoseError, ValueError):
         return None
-    except Exception as e:  # the finding
+    except (KeyboardInterrupt, SystemExit):
+        raise
+    except BaseException as e:  # the finding (BaseException: e.g. pyo3's PanicException does not derive from Exception)
         site = culprit(e)
         return ("%s:%s:%s" % (entry, type(e).__name__, site), "%s escaped from %s at %s: %s" % (type(e).__name__, entry, site, str(e)[:100]))
     return None
@@ -223,7 +227,9 @@ def gen_jws_input(w: World, rng: Rng):
     alg, kname = rng.pick(JWS_BASE)
     form = rng.pick(["compact", "compact", "flat", "general"])
     payload = rng.pick([b"hello", b"{\"sub\":\"a\"}", b"", b"[1,2]", b"\xff\xfe", b"not json", b"\"str\"", b"{\"exp\":\"x\"}", b"a.b",
-                        b"[" * 3000 + b"]" * 3000, b'{"a":' * 2000 + b"1" + b"}" * 2000])
+                        b"[" * 3000 + b"]" * 3000, b'{"a":' * 2000 + b"1" + b"}" * 2000,
+                        b'{"exp":[1]}', b'{"exp":{"a":1}}', b'{"nbf":1e999}', b'{"iat":Infinity}', b'{"exp":-Infinity,"nbf":NaN}', b'{"exp":null,"iat":true}',
+                        b'{"exp":1' + b"0" * 400 + b'}', b'{"iat":"1700000000"}', b'{"aud":[[1]],"iss":{"x":[]}}'])
     header = {"alg": alg, "kid": kname}
     if rng.chance(0.2):
         header.update({"b64": rng.pick([False, True]), "crit": ["b64"]})
@@ -278,7 +284,8 @@ def gen_jwe_input(w: World, rng: Rng):
             prot["kid"] = kname
     else:
         rh = {"alg": alg, "kid": kname}
-    pt = rng.pick([b"secret", b"{\"sub\":\"a\"}", b"", b"\xff\xfe", b"[1]", b"[" * 3000 + b"]" * 3000])
+    pt = rng.pick([b"secret", b"{\"sub\":\"a\"}", b"", b"\xff\xfe", b"[1]", b"[" * 3000 + b"]" * 3000, b'{"exp":[1]}', b'{"nbf":1e999}',
+                   b'{"iat":Infinity,"exp":{"a":1}}'])
     src = rng.pick(["wire", "header-type", "member", "member", "member", "inner", "inner", "json-shape"])
     note = src
     kw = {}
